@@ -13,6 +13,7 @@ def blankRootHash : Hash := blankRoot keccak
 structure St where
   w : World := {}
   regs : Array Node := #[]       -- node registers for traverse_from
+  last : Option Node := none     -- raw node (real or simulated) returned by the latest traversal
   deriving Inhabited
 
 def pathStr (p : Path) : String :=
@@ -56,6 +57,12 @@ def fmtTrav : TravOut → String
   | .node a => s!"node {fmtAnn a}"
   | .partialPath tr a tail sim =>
     s!"partial traversed={pathStr tr} tail={pathStr tail} node=[{fmtAnn a}] sim=[{match sim with | some s => fmtAnn s | none => "bug"}]"
+
+/-- the raw node a traversal hands to the caller: the node, or the simulated node of a partial path -/
+def descRaw : TravOut → Node
+  | .node a => a.raw
+  | .partialPath _ _ _ (some s) => s.raw
+  | .partialPath _ a _ none => a.raw
 
 def countsOf (w : World) : Target → Counts
   | .trie i => w.counts[i]!
@@ -142,8 +149,8 @@ def step (st : St) (cmd : String) (args : List String) : St × String :=
     | some tg, some p =>
       let T := w.trieOf tg
       match travReads w tg (some T.root) T.tree p with
-      | some e => (st, fmtExn e)
-      | none => (st, fmtTrav (traverseOut T.tree p))
+      | some e => ({ st with last := none }, fmtExn e)
+      | none => ({ st with last := some (descRaw (traverseOut T.tree p)) }, fmtTrav (traverseOut T.tree p))
     | _, _ => bad
   | "rootnode", [tg] =>
     match parseTarget tg with
@@ -170,9 +177,14 @@ def step (st : St) (cmd : String) (args : List String) : St × String :=
       if r ≥ st.regs.size then bad else
       let n := st.regs[r]!
       match travReads w tg none n p with
-      | some e => (st, fmtExn e)
-      | none => (st, fmtTrav (traverseOut n p))
+      | some e => ({ st with last := none }, fmtExn e)
+      | none => ({ st with last := some (descRaw (traverseOut n p)) }, fmtTrav (traverseOut n p))
     | _, _, _ => bad
+  -- remember the node returned by the latest successful traversal (what a frontier cache stores)
+  | "reglast", [] =>
+    match st.last with
+    | some n => ({ st with regs := st.regs.push n }, toString st.regs.size)
+    | none => bad
   | "proof", [tg, k] =>
     match parseTarget tg, ofHex k with
     | some tg, some k =>
